@@ -10,10 +10,17 @@ namespace vf {
 static std::string baseName(const std::string& p) { size_t k = p.rfind('/'); return k == std::string::npos ? p : p.substr(k + 1); }
 
 // case idx -> idx-th path of --list; loads it, writes out/snap_<idx>.json (or the exception class)
+// "<file>.decoy" (when the corpus generator wrote one): a file of the same shape with other labels and values, loaded and dropped first
+static void loadDecoyOf(const std::string& path, CaseLog& log) {
+    std::string d = path + ".decoy"; if (access(d.c_str(), R_OK) != 0) return;
+    log.pre("load", "decoy"); try { ezc3d::c3d dec(d); log.line("CNT decoy_loaded_first 1"); } catch (const std::exception&) { log.line("CNT decoy_refused 1"); }
+}
+
 void runLoadDump(const Opts& o, long idx, CaseLog& log) {
     std::vector<std::string> files = readLines(o.list);
     if (idx < 0 || (size_t)idx >= files.size()) throw std::runtime_error("loaddump: index beyond list");
     const std::string& path = files[idx];
+    loadDecoyOf(path, log);
     hookReset();
     std::unique_ptr<ezc3d::c3d> c; Outcome oc;
     log.pre("load", baseName(path));
@@ -40,6 +47,7 @@ void runGenerations(const Opts& o, long idx, CaseLog& log) {
     if (idx < 0 || (size_t)idx >= files.size()) throw std::runtime_error("gens: index beyond list");
     const std::string& path = files[idx];
     int gens = (int)o.geti("gens", 2);
+    loadDecoyOf(path, log);
     std::unique_ptr<ezc3d::c3d> c; Outcome oc;
     log.pre("load", baseName(path)); VF_TRY(oc, c.reset(new ezc3d::c3d(path))); log.ev("load", baseName(path), oc);
     if (oc.threw) { log.line("RES %ld load_threw %s | %s", idx, oc.cls.c_str(), oc.what.substr(0, 120).c_str()); return; }
@@ -48,6 +56,7 @@ void runGenerations(const Opts& o, long idx, CaseLog& log) {
     Snap prevSnap = g1; std::string prevBytes; bool havePrev = false;
     for (int g = 2; g <= gens + 1; ++g) {
         char fp[700]; snprintf(fp, sizeof fp, "%s/gen%d_%ld.c3d", o.out.c_str(), g, idx);
+        if (g >= 3 && idx % 2 == 1) writeFileBytes(fp, std::string(prevBytes.size() + 3000, 'J'));     // the destination of the repeated save already holds a longer file
         Outcome so; log.pre("write"); VF_TRY(so, c->write(fp)); log.ev("save", "gen" + std::to_string(g), so);
         if (so.threw) { log.viol("C04", "save_threw/" + so.cls, so.what); return; }
         { Snap after = take(*c); if (after != prevSnap) log.viol("C14", "save_changed_object", "generation " + std::to_string(g)); }
